@@ -6,6 +6,12 @@ use-def expansion (sa.valueflow) -- nothing is imported or called.
 * `variants(cls, meth)`: every (dispatch arm x truthiness of optional factors x
   inner branch) of a `rateexpr` / `rate_*` method as C text with typed holes.
 * `registry(cls)`: ordered symbol registrations of the class's __init__ chain.
+
+Spelling-independence of `variants`: constants hoisted out of the method are read as their displays (`module_consts`, also through
+`from .module import NAME`; `class_displays` / `class_consts` for tables read through self/cls); a method that scans such a table is
+re-normalised with the table in place (`specialised`: the scan unrolls into the chain); private helper methods and small module-level
+helper functions are inlined by value, keeping their refusing (`raise`) arms; table-driven dispatch (dict display subscripted / .get,
+table of lambdas, table of text templates filled with str.format / %) is read as the if/elif chain it abbreviates (`lookup_chains`).
 """
 from __future__ import annotations
 
